@@ -1,5 +1,6 @@
 """C04 -- the Kemeny score a consensus reports is the true score of each returned ranking."""
 from .. import grids, algorun
+from ..framework import Model
 from . import algo_common as ac
 
 PID = "C04"
@@ -36,6 +37,11 @@ def handbuilt_cases(dss, rng):
                         "cfg": "HandBuilt", "flag": 1, "env": "nocplex", "kseed": k, "entry": k % 4,
                         "cands": [random_order(rng, U)]})
     return out
+
+
+def models(tier):
+    cfgs = ["book_uni5_3_1", "book_odd_3_1"] if tier == "quick" else ["book_uni5_3_1", "book_odd_3_1", "uni5_3_2", "thr_3_2"]
+    return [Model("BioScan", f"MC_BioScan_{c}.cfg", "local search bookkeeping: delta_dist accumulated by the transcribed search equals the score difference with the departure ranking after every move (invariant Bookkeeping), from every departure ranking of every one-ranking dataset over 3 elements") for c in cfgs]
 
 
 def stages(tier, rng, only=None):
